@@ -55,6 +55,7 @@ def cases(tier):
             out.append(("matrix", backend, x, "~", tier))
         out.append(("matrix", backend, "~", "~", tier))
         out.append(("roles", backend, "", "", tier))
+        out.append(("reauth", backend, "", "", tier))
     return out
 
 
@@ -141,7 +142,7 @@ def run_matrix(case):
                 label = label0 + "|" + tname
                 # ---- REQ -------------------------------------------------------------------------
                 n0 = len(c.transcript)
-                w.send(tname, ["REQ", "q", {"kinds": [1]}], 1e6)
+                w.send(tname, ["REQ", "q", {"kinds": [1, 20001]}], 1e6)
                 n += 1
                 fr = frames(c, n0)
                 evs = [m for m in fr if m[0] == "EVENT"]
@@ -172,8 +173,8 @@ def run_matrix(case):
                 spec = TOKENS[tname]
                 roles = set(spec[1]) if spec else {"a"}
                 label = label0 + "|" + tname
-                for author in ("A", "B"):
-                    ev = make_event(author, 1, 1000 + 10 * i + (author == "B"), [], "by %s via %s" % (author, tname))
+                for author, kind in (("A", 1), ("B", 1), ("A", 20001)):
+                    ev = make_event(author, kind, 1000 + 10 * i + (author == "B") + 2 * (kind != 1), [], "by %s via %s" % (author, tname))
                     before = w.dump()
                     marks = {t: len(cc.transcript) for t, cc in conns.items()}
                     w.send(tname, ["EVENT", ev], 1e6)
@@ -185,18 +186,18 @@ def run_matrix(case):
                     stored = ev["id"] in store.decode_store(backend, after)
                     pushed_to = [t for t, cc in conns.items() for m in frames(cc, marks[t]) if m[0] == "EVENT" and m[2].get("id") == ev["id"]]
                     if may_save:
-                        if not (oks and oks[0][2] is True and stored):
-                            viol.append({"case": cid, "clause": "authorised-save-accepted", "sig": label + "|" + author,
+                        if not (oks and oks[0][2] is True and (stored or kind != 1)):  # an ephemeral event need not be stored
+                            viol.append({"case": cid, "clause": "authorised-save-accepted", "sig": label + "|%s|%d" % (author, kind),
                                          "detail": "roles %r may save (save roles %r) but OK=%r stored=%s" % (sorted(roles), save, oks[:1], stored)})
                     else:
                         if stored or after != before:
-                            viol.append({"case": cid, "clause": "unauthorised-save-not-stored", "sig": label + "|" + author,
+                            viol.append({"case": cid, "clause": "unauthorised-save-not-stored", "sig": label + "|%s|%d" % (author, kind),
                                          "detail": "roles %r may not save (save roles %r) but the store changed (stored=%s)" % (sorted(roles), save, stored)})
                         if pushed_to:
-                            viol.append({"case": cid, "clause": "unauthorised-save-not-broadcast", "sig": label + "|" + author,
+                            viol.append({"case": cid, "clause": "unauthorised-save-not-broadcast", "sig": label + "|%s|%d" % (author, kind),
                                          "detail": "roles %r may not save but the event was pushed to %r" % (sorted(roles), pushed_to)})
                         if not (oks and oks[0][2] is False and str(oks[0][3]).startswith("restricted")):
-                            viol.append({"case": cid, "clause": "told-restricted", "sig": label + "|event|" + author, "detail": "refused EVENT answered by %r" % (oks[:1] or fr[:1])})
+                            viol.append({"case": cid, "clause": "told-restricted", "sig": label + "|event|%s|%d" % (author, kind), "detail": "refused EVENT answered by %r" % (oks[:1] or fr[:1])})
                     # live delivery respects the query permission and the output validator of each receiver
                     for t, cc in conns.items():
                         tspec = TOKENS[t]
@@ -209,9 +210,76 @@ def run_matrix(case):
                         if got and not ov_allows(ovname, ev, tpk):
                             viol.append({"case": cid, "clause": "output-validator-on-live", "sig": label0 + "|live|%s|%s" % (t, author),
                                          "detail": "live push of an event by %s reached %s although the output validator %s rejects it" % (author, t, ovname)})
-                        if may_save and stored and (troles & set(query)) and ov_allows(ovname, ev, tpk) and len(got) != 1:
+                        if may_save and (stored or kind != 1) and (troles & set(query)) and ov_allows(ovname, ev, tpk) and len(got) != 1:
                             viol.append({"case": cid, "clause": "authorised-live-delivery", "sig": label0 + "|live|%s|%s" % (t, author),
                                          "detail": "%s holds a matching subscription and may see the event but got %d pushes" % (t, len(got))})
+        finally:
+            w.close()
+    return viol, n
+
+
+def run_reauth(case):
+    """one connection changes its identity: what it may do follows the identity it holds when it asks (save = w, query = r)"""
+    _, backend, _, _, tier = case
+    viol = []
+    cid = "reauth|%s" % backend
+    n = 0
+    cfg = {"authentication": {"enabled": True, "actions": {"save": "w", "query": "r"}, "relay_urls": [RELAY_URL]}}
+    keys = {"r": "K2", "w": "K3", "rw": "K4", "none": "K5"}
+    for first, second in itertools.permutations(keys, 2):
+        w = World(backend, config=cfg, storage_options={"stats_interval": 1e15}, message_timeout=1e300)
+        label = "%s->%s" % (first, second)
+        try:
+            for r, k in keys.items():
+                w.call(w.storage.set_auth_roles(PK[k], "" if r == "none" else r), 1e6)
+            w.run(1e6)
+            pub = w.connect("pub", "9.9.9.1")
+            w.run(1e6)
+            w.send("pub", ["AUTH", auth_event("K4", frames(pub)[0][1], CLOCK.now)], 1e6)
+            c = w.connect("c", "1.1.1.1")
+            w.run(1e6)
+            ch = frames(c)[0][1]
+            opened = {}
+            for step, who in enumerate((first, second)):
+                w.send("c", ["AUTH", auth_event(keys[who], ch, CLOCK.now)], 1e6)
+                n0 = len(c.transcript)
+                sid = "s%d" % step
+                w.send("c", ["REQ", sid, {"kinds": [1]}], 1e6)
+                n += 1
+                fr = frames(c, n0)
+                served = any(m[0] == "EOSE" and m[1] == sid for m in fr)
+                may = "r" in who
+                opened[sid] = may
+                if served != may:
+                    viol.append({"case": cid, "clause": "authorised-query-served" if may else "unauthorised-query-refused", "sig": label + "|req%d" % step,
+                                 "detail": "after AUTH as %s the REQ was %s (identities %s)" % (who, "served" if served else "refused", label)})
+                if not may and not any(m[0] == "NOTICE" and str(m[1]).startswith("restricted") for m in fr):
+                    viol.append({"case": cid, "clause": "told-restricted", "sig": label + "|req%d" % step, "detail": "refused REQ answered by %r" % fr[:2]})
+                # a live event: only subscriptions that were granted receive it
+                ev = make_event("A", 1, 2000 + step, [], "live %s %d" % (label, step))
+                n0 = len(c.transcript)
+                w.send("pub", ["EVENT", ev], 1e6)
+                n += 1
+                for m in frames(c, n0):
+                    if m[0] == "EVENT" and not opened.get(m[1], False):
+                        viol.append({"case": cid, "clause": "unauthorised-query-refused", "sig": label + "|live%d|%s" % (step, m[1]),
+                                     "detail": "a live event was pushed for subscription %s, which was refused (identities %s)" % (m[1], label)})
+                got = [m[1] for m in frames(c, n0) if m[0] == "EVENT" and m[2].get("id") == ev["id"]]
+                for sid2, ok in opened.items():
+                    if ok and sid2 == sid and got.count(sid2) != 1:
+                        viol.append({"case": cid, "clause": "authorised-live-delivery", "sig": label + "|live%d|%s" % (step, sid2),
+                                     "detail": "granted subscription %s received %d pushes (identities %s)" % (sid2, got.count(sid2), label)})
+                # an EVENT by the connection itself
+                own = make_event(keys[who], 1, 2100 + step, [], "own %s %d" % (label, step))
+                n0 = len(c.transcript)
+                before = w.dump()
+                w.send("c", ["EVENT", own], 1e6)
+                n += 1
+                oks = [m for m in frames(c, n0) if m[0] == "OK"]
+                may_save = "w" in who
+                if may_save != bool(oks and oks[0][2] is True) or (not may_save and w.dump() != before):
+                    viol.append({"case": cid, "clause": "authorised-save-accepted" if may_save else "unauthorised-save-not-stored", "sig": label + "|event%d" % step,
+                                 "detail": "after AUTH as %s the EVENT was answered %r (identities %s)" % (who, oks[:1], label)})
         finally:
             w.close()
     return viol, n
@@ -284,6 +352,8 @@ def run_roles(case):
 def run_case(case):
     if case[0] == "matrix":
         viol, n = run_matrix(case)
+    elif case[0] == "reauth":
+        viol, n = run_reauth(case)
     else:
         viol, n = run_roles(case)
     cid = "%s|%s|%s|%s" % (case[0], case[1], case[2] or "-", case[3] or "-")
@@ -296,11 +366,12 @@ def coverage(tier, agg):
     ss = SUBSETS if tier == "thorough" else ["", "a", "r", "w", "rw"]
     return {
         "rule": "matrix: save roles x query roles over %r (%d x %d configurations, plus each action left unconfigured = default role 'a') x token roles {unauthenticated, a, r, w, rw, none} obtained by real "
-                "AUTH handshakes x {REQ, EVENT by two authors} x output validator {none, recipe whitelist, reject-one-author} on both backends; every "
+                "AUTH handshakes x {REQ, EVENT by two authors, an ephemeral EVENT} x output validator {none, recipe whitelist, reject-one-author} on both backends; every "
                 "connection also holds a subscription, so each accepted EVENT exercises live delivery to every token; oracle: stored/broadcast iff "
                 "roles intersect save roles (else OK=false 'restricted', store and other transcripts unchanged), served iff roles intersect query "
                 "roles (else NOTICE 'restricted', no EVENT/EOSE), every EVENT frame satisfies the configured output validator (stored and live); "
-                "roles: all sequences of <= %d assignments over 2 keys x {'', r, rw, RW} with clock steps {0,1}s read back via get_auth_roles and "
+                "reauth: one connection authenticates as each ordered pair of {r, w, rw, no role} and after each AUTH sends a REQ and an EVENT and sees "
+                "a live event: what is granted follows the identity held at that moment, a refused REQ's subscription never receives pushes; roles: all sequences of <= %d assignments over 2 keys x {'', r, rw, RW} with clock steps {0,1}s read back via get_auth_roles and "
                 "get_all_auth_roles. states/transitions = commands judged." % (ss, len(ss), len(ss), 3 if tier == "thorough" else 2),
         "backends": ["sql", "kv"],
     }
